@@ -1,5 +1,18 @@
-"""Replay handlers of the remaining properties (filled in as they are built)."""
+"""Replay handlers of the remaining properties."""
+import json
+
+
+def replay_logic(rep):
+    """C13 obligations are confirmed on the named logics / generated formulas (exhaustive native check)"""
+    from native import bounded_more
+    r = bounded_more.logics_check("quick", int(rep.get("seed", 0)))
+    if r["violations"]:
+        return True, {"mode": "exhaustive over named logics + generated formulas", "failure": r["violations"][0]}
+    return False, {"mode": "exhaustive over named logics + generated formulas: nothing found"}
 
 
 def dispatch(rep):
-    return False, {"mode": "no native replay handler for kind %r" % rep.get("kind")}
+    kind = rep.get("kind")
+    if kind == "logic":
+        return replay_logic(rep)
+    return False, {"mode": "no native replay handler for kind %r" % kind}
